@@ -695,7 +695,7 @@ fn exercise(name: &str, spec: &ProgSpec, rng: &mut Rng, n_tuples: usize) -> Out1
                 oracle: "O1:format_does_not_reload_identical_ast_in_process".into(),
                 detail: format!("{}: {}", f.ext(), first_line(&e, 160)),
                 signature: json!({"engine": ENGINE, "oracle": "O1", "format": f.ext(), "ast_depth": prep.depth, "json_nesting": prep.json_nesting,
-                                  "lisp_nesting": prep.lisp_nesting, "stage": "compile", "message": e}),
+                                  "lisp_nesting": prep.lisp_nesting, "stage": "compile", "message": e, "died_by_signal": false}),
             }));
         }
     }
@@ -818,7 +818,7 @@ pub fn run(seed: u64, tier: &str, ev: &mut Evidence) -> Vec<Violation> {
         let probe = Violation { property: "C06".into(), oracle: v.oracle.clone(), detail: String::new(), signature: v.signature.clone(), replay: Value::Null };
         let is_known = known.iter().any(|k| super::report::matches_known(k, &probe));
         let key = format!("{}|{}|{}|{}", is_known, v.oracle, case.tuple.format.ext(), msg.chars().filter(|c| !c.is_ascii_digit()).take(60).collect::<String>());
-        let is_recursion_limit = msg.contains("recursion limit exceeded");
+        let is_recursion_limit = is_known;
         if seen.contains(&key) { continue; }
         seen.push(key);
         if is_known || is_recursion_limit {
